@@ -12,6 +12,7 @@ import (
 	"github.com/spf13/cobra"
 	"github.com/wrgl/wrgl/cmd/wrgl/utils"
 	"github.com/wrgl/wrgl/pkg/conf"
+	"github.com/wrgl/wrgl/pkg/doctor"
 	"github.com/wrgl/wrgl/pkg/objects"
 	"github.com/wrgl/wrgl/pkg/pbar"
 	"github.com/wrgl/wrgl/pkg/zzverif"
@@ -216,5 +217,21 @@ func Harness_C05_merge_cmd() {
 		zzverif.Assert("result-row-is-base-with-each-branch-edits", ok)
 	}
 	_ = time.Second
+	if zzverif.Param("structure", 0) == 1 {
+		// C03: a table produced by a merge commit is structurally sound and the
+		// repository's own diagnosis finds nothing wrong with any ref
+		zzrepo.CheckStructure(db, com.Table)
+		d := doctor.NewDoctor(db, rs, *cfg.User, logr.Discard())
+		issCh, errCh, derr := d.Diagnose(context.Background(), nil, nil, nil)
+		zzverif.Assert("diagnosis-starts", derr == nil)
+		if derr == nil {
+			n := 0
+			for ri := range issCh {
+				n += len(ri.Issues)
+			}
+			zzverif.Assert("diagnosis-no-error", <-errCh == nil)
+			zzverif.Assert("own-diagnosis-reports-no-issue-after-a-merge-commit", n == 0)
+		}
+	}
 	zzverif.Reach("end")
 }
